@@ -180,6 +180,18 @@ class Machine:
     def _load(self, env, l, projs):
         v = env.get(l, TOP)
         for p in projs:
+            if p[0] == "i":
+                # element of a block sequence at a position held in a local
+                ix = env.get(p[1], TOP)
+                if isinstance(v, tuple) and v and v[0] == "ref":
+                    v = self.deref_val(env, v)
+                if not (isinstance(v, tuple) and v and v[0] == "view") or isinstance(ix, bool) or not isinstance(ix, int):
+                    raise Unsupported("indexing %s by %s" % (_kind(v), _kind(ix)))
+                e = v[1].get(v[2] + ix, self) if ix >= 0 else None
+                if e is None:
+                    raise PanicPath("index out of bounds")
+                v = e
+                continue
             v = self._project(v, p)
         return v
 
@@ -215,6 +227,8 @@ class Machine:
             raise Unsupported("downcast of %r" % (v[:1],))
         if k == "d":
             return v
+        if k == "i":
+            raise Unsupported("index projection outside a load")
         raise Unsupported("projection %s" % k)
 
     def read_place(self, env, pl):
@@ -322,6 +336,8 @@ class Machine:
             a = self.deref_val(env, self.operand(env, rv["a"], body))
             if rv["uop"] == "Not" and isinstance(a, bool):
                 return not a
+            if rv["uop"] == "PtrMetadata" and isinstance(a, tuple) and a and a[0] == "view":
+                return ("len", a[1], a[2])
             raise Unsupported("unary %s" % rv["uop"])
         raise Unsupported("rvalue %s" % r)
 
@@ -350,6 +366,18 @@ class Machine:
                 if c:
                     return c
             return 0
+        la = isinstance(a, tuple) and a and a[0] == "len"
+        lb = isinstance(b, tuple) and b and b[0] == "len"
+        if la != lb:
+            # a position against the (unknown) length of a sequence view: decided by asking the sequence for elements
+            k, ln, sign = (b, a, -1) if la else (a, b, 1)
+            if isinstance(k, bool) or not isinstance(k, int) or k < 0:
+                raise Unsupported("comparison of %s with a sequence length" % _kind(k))
+            seq, base = ln[1], ln[2]
+            for j in range(k):
+                if seq.get(base + j, self) is None:
+                    return sign * 1                 # k > len
+            return sign * (-1 if seq.get(base + k, self) is not None else 0)
         self._ints(a, b, "comparison")
         return (a > b) - (a < b)
 
@@ -363,6 +391,8 @@ class Machine:
             sign = 1 if op.startswith("Add") else -1
             if isinstance(a, tuple) and a[0] == "lin" and isinstance(b, int) and not isinstance(b, bool):
                 r = ("lin", a[1], a[2] + sign * b)
+            elif isinstance(a, int) and isinstance(b, int) and not isinstance(a, bool) and not isinstance(b, bool) and 0 <= a + sign * b < 64:
+                r = a + sign * b                    # small positions (an index into a sequence view)
             else:
                 raise Unsupported("%s of %s and %s" % (op, _kind(a), _kind(b)))
             return ("tuple", (r, False)) if op.endswith("WithOverflow") else r
@@ -546,6 +576,8 @@ class Machine:
                 return v
             if name == "is_empty":
                 return v[1].get(v[2], self) is None
+            if name == "len":
+                return ("len", v[1], v[2])
             if name == "first":
                 e = v[1].get(v[2], self)
                 return NONE if e is None else some(e)
